@@ -1,0 +1,103 @@
+//go:build verif
+
+package gojq
+
+// Verification hooks for the interpreter's machine state (properties C07 and C20 of /verif).
+// Add-only: nothing here is compiled without the build tag "verif".
+
+// VerifFoot is the footprint of a live iterator: everything the VM retains between two Next calls.
+type VerifFoot struct {
+	OK                                bool // false when the Iter is not a VM environment
+	Pc, NCodes                        int
+	Forks, ForksCap                   int
+	StackIndex, StackLimit, StackData int
+	ScopeIndex, ScopeLimit, ScopeData int
+	PathIndex, PathLimit, PathData    int
+	Offset, Values                    int
+	StackDepth, ScopeDepth, PathDepth int // length of the linked chain from index
+	Backtrack                         bool
+}
+
+func verifChainStack(s *stack) int {
+	n := 0
+	for i := s.index; i >= 0 && i < len(s.data) && n <= len(s.data); i = s.data[i].next {
+		n++
+	}
+	return n
+}
+
+func verifChainScopes(s *scopeStack) int {
+	n := 0
+	for i := s.index; i >= 0 && i < len(s.data) && n <= len(s.data); i = s.data[i].next {
+		n++
+	}
+	return n
+}
+
+// VerifFootprint reports the footprint of an iterator returned by (*Code).Run / RunWithContext.
+func VerifFootprint(it Iter) VerifFoot {
+	e, ok := it.(*env)
+	if !ok {
+		return VerifFoot{}
+	}
+	return VerifFoot{
+		OK: true, Pc: e.pc, NCodes: len(e.codes),
+		Forks: len(e.forks), ForksCap: cap(e.forks),
+		StackIndex: e.stack.index, StackLimit: e.stack.limit, StackData: len(e.stack.data),
+		ScopeIndex: e.scopes.index, ScopeLimit: e.scopes.limit, ScopeData: len(e.scopes.data),
+		PathIndex: e.paths.index, PathLimit: e.paths.limit, PathData: len(e.paths.data),
+		Offset: e.offset, Values: len(e.values),
+		StackDepth: verifChainStack(e.stack), ScopeDepth: verifChainScopes(e.scopes), PathDepth: verifChainStack(e.paths),
+		Backtrack: e.backtrack,
+	}
+}
+
+// VerifOpcodes returns the opcode names of a compiled query (for statistics: which tail-call form was chosen).
+func VerifOpcodes(c *Code) []string {
+	xs := make([]string, len(c.codes))
+	for i, c := range c.codes {
+		xs[i] = c.op.String()
+	}
+	return xs
+}
+
+// VerifStack drives the unexported value stack (stack.go) from the harness.
+type VerifStack struct{ s *stack }
+
+func VerifNewStack() *VerifStack               { return &VerifStack{newStack()} }
+func (v *VerifStack) Push(x int)               { v.s.push(x) }
+func (v *VerifStack) Pop() int                 { return v.s.pop().(int) }
+func (v *VerifStack) Top() int                 { return v.s.top().(int) }
+func (v *VerifStack) Empty() bool              { return v.s.empty() }
+func (v *VerifStack) Save() (int, int)         { return v.s.save() }
+func (v *VerifStack) Restore(index, limit int) { v.s.restore(index, limit) }
+func (v *VerifStack) State() (index, limit, ndata int) {
+	return v.s.index, v.s.limit, len(v.s.data)
+}
+
+// Blocks returns the raw (value,next) blocks of the data array.
+func (v *VerifStack) Blocks() (vals, nexts []int) {
+	for _, b := range v.s.data {
+		vals, nexts = append(vals, b.value.(int)), append(nexts, b.next)
+	}
+	return
+}
+
+// VerifScopeStack drives the unexported scope stack (scope_stack.go); the cell payload is scope.id.
+type VerifScopeStack struct{ s *scopeStack }
+
+func VerifNewScopeStack() *VerifScopeStack          { return &VerifScopeStack{newScopeStack()} }
+func (v *VerifScopeStack) Push(x int)               { v.s.push(scope{id: x}) }
+func (v *VerifScopeStack) Pop() int                 { return v.s.pop().id }
+func (v *VerifScopeStack) Empty() bool              { return v.s.empty() }
+func (v *VerifScopeStack) Save() (int, int)         { return v.s.save() }
+func (v *VerifScopeStack) Restore(index, limit int) { v.s.restore(index, limit) }
+func (v *VerifScopeStack) State() (index, limit, ndata int) {
+	return v.s.index, v.s.limit, len(v.s.data)
+}
+func (v *VerifScopeStack) Blocks() (vals, nexts []int) {
+	for _, b := range v.s.data {
+		vals, nexts = append(vals, b.value.id), append(nexts, b.next)
+	}
+	return
+}
